@@ -98,6 +98,8 @@ pub struct Window {
     /// tail leaves (Clear event of the next link), inf if not yet
     pub end: f64,
     pub spacing: f64,
+    /// the train's path ends on this link (the destination link is a sink: the train leaves the model there)
+    pub terminates: bool,
 }
 
 pub fn windows(s: &Snap) -> Vec<Window> {
@@ -119,7 +121,7 @@ pub fn windows(s: &Snap) -> Vec<Window> {
             } else {
                 (f64::INFINITY, f64::INFINITY)
             };
-            out.push(Window { train: ti + 1, link: a.link, start: a.time, clear_entry, front_exit, end, spacing: t.spacing });
+            out.push(Window { train: ti + 1, link: a.link, start: a.time, clear_entry, front_exit, end, spacing: t.spacing, terminates: k + 1 == arrives.len() });
         }
     }
     out
@@ -167,6 +169,11 @@ pub fn oracle_c04(t: &Topo, s: &Snap, checks: &mut u64) -> Fails {
                 *checks += 4;
                 if lead.clear_entry.is_finite() && foll.start < lead.clear_entry + foll.spacing - 1e-6 {
                     f.push((format!("entry-headway-violated@advance:{phase}"), format!("link {}: train {} enters at {} but train {} cleared the entry at {} (+{} s headway)", a.link, foll.train, foll.start, lead.train, lead.clear_entry, foll.spacing)));
+                }
+                // exit headway / order only for trains that really run through the link: a train whose route ends on
+                // it leaves the model there (destination = sink) and overtakes nobody
+                if lead.terminates || foll.terminates {
+                    continue;
                 }
                 if lead.end.is_finite() && foll.front_exit.is_finite() && foll.front_exit < lead.end + foll.spacing - 1e-6 {
                     f.push((format!("exit-headway-violated@advance:{phase}"), format!("link {}: front of train {} leaves at {} but tail of train {} left at {} (+{} s headway)", a.link, foll.train, foll.front_exit, lead.train, lead.end, foll.spacing)));
@@ -468,7 +475,7 @@ impl Prop for DispatchProp {
         self.which
     }
     fn rule(&self, tier: Tier) -> String {
-        format!("E-SHAPE over dispatch scenarios: topologies {{plain line, single passing siding, two-track terminals (two origin / destination segments), two sidings, Y junction with three terminals, diamond crossing with symmetric lockout declarations}}{} (10 km terminal links, every link with its flip) x EVERY ordered sequence of n <= {} trains, each train = (origin/destination pair incl. both directions) x departure in {{0, 60, 300, 900}} s (all relative orders and ties) x length in {{360 m, 1080 m}} (later positions restricted as stated in DESIGN); estimated-time networks are the real make_est_times outputs. One real run_dispatch per scenario; hook H1 exposes the dispatch state after every train move and at the end (states = snapshots, transitions = train moves). Oracle {} on every snapshot and on the returned plan. distinct_nontrivial = distinct (topology, outcome, set of events: paused mid-route / blocked behind a train / followed on a link / rewind / re-route / diverged / waited / stuck-error) signatures.", if tier.is_thorough() { " x middle-link length in {0.5, 3, 20 km}" } else { " (middle links 3 km)" }, if tier.is_thorough() { "4 (3 on topologies with more than 16 train descriptors)" } else { "3 (2 on topologies with more than 16 train descriptors)" }, self.which)
+        format!("E-SHAPE over dispatch scenarios: topologies {{plain line, single passing siding, two-track terminals (two origin / destination segments), two sidings, a corridor with an intermediate terminal (trains with different destinations following each other), Y junction with three terminals, diamond crossing with symmetric lockout declarations}}{} (10 km terminal links, every link with its flip) x EVERY ordered sequence of n <= {} trains, each train = (origin/destination pair incl. both directions) x departure in {{0, 60, 300, 900}} s (all relative orders and ties) x length in {{360 m, 1080 m}} (later positions restricted as stated in DESIGN); estimated-time networks are the real make_est_times outputs. One real run_dispatch per scenario; hook H1 exposes the dispatch state after every train move and at the end (states = snapshots, transitions = train moves). Oracle {} on every snapshot and on the returned plan. distinct_nontrivial = distinct (topology, outcome, set of events: paused mid-route / blocked behind a train / followed on a link / rewind / re-route / diverged / waited / stuck-error) signatures.", if tier.is_thorough() { " x middle-link length in {0.5, 3, 20 km}" } else { " (middle links 3 km)" }, if tier.is_thorough() { "4 (3 on topologies with more than 16 train descriptors)" } else { "3 (2 on topologies with more than 16 train descriptors)" }, self.which)
     }
     fn assumptions(&self) -> Vec<String> {
         vec![
